@@ -67,7 +67,12 @@ func c04RunSchedChild(s *c04State) string {
 		if p == nil {
 			continue
 		}
-		h := &c04Hist{Sched: sched}
+		h := &c04Hist{Sched: sched, LockAware: p.LockAware}
+		for _, f := range strings.Fields(lines[0])[3:] {
+			if strings.HasPrefix(f, "deadlock=") {
+				h.Deadlock = f[9:]
+			}
+		}
 		for _, l := range lines[1:] {
 			t := strings.SplitN(l, " ", 6)
 			switch t[0] {
@@ -86,7 +91,9 @@ func c04RunSchedChild(s *c04State) string {
 			cnt[h.Calls[i].G]++
 		}
 		hd := strings.Fields(lines[0])
-		p.Focus = "sched"
+		if p.Focus == "replay" { // no focus= token in the header
+			p.Focus = "sched"
+		}
 		cnt1 := counts[id]
 		if cnt1 < 1 {
 			cnt1 = 1
